@@ -89,6 +89,44 @@ def random_histories(rng, nhist, depth, queries=True):
     return events
 
 
+def inspected_histories(rng, nhist, nreg):
+    """Step-by-step inspection: after every registration call (accepted or refused) the same battery of lookups and value constructions
+    is run for every unit spelling and category, so that whatever a lookup memorises is confronted with every later registration."""
+    qts, units, cats = ["L", "T"], ["m", "cm", "Mcf", "s"], ["L", "dep"]
+    spell = units + ["1000ft3"]
+    events = []
+    for tid in range(nhist):
+        w = regworld.RegWorld(regcheck_factors())
+        try:
+            def do(op, a):
+                o = w.call(op, a)
+                events.append({"tid": tid, "op": op, "a": a, "out": out_event(o), "has_state": op in ("AddUnit", "AddUnitBase", "AddCategory", "Clear"), "state": state_event(w)
+                               if op in ("AddUnit", "AddUnitBase", "AddCategory", "Clear") else {"order": [], "units": [], "cats": []}})
+            for _ in range(nreg):
+                p = rng.random()
+                if p < 0.25:
+                    do("AddUnitBase", {"qt": rng.choice(qts), "u": rng.choice(units)})
+                elif p < 0.5:
+                    do("AddUnit", {"qt": rng.choice(qts), "u": rng.choice(units), "dc": rng.choice([NONE, NONE, "dep", "L"])})
+                elif p < 0.97:
+                    a = catargs(rng.choice(cats), qt=rng.choice(qts + [NONE]), override=rng.random() < 0.5, frm=rng.choice([NONE, NONE, NONE] + cats))
+                    if rng.random() < 0.3:
+                        a["valid"] = {"has": True, "s": rng.choice([[], ["cm"], ["1000ft3", "m"], ["s"], ["m"], ["Mcf", "cm"]])}
+                    if rng.random() < 0.2:
+                        a["du"] = rng.choice(["cm", "1000ft3", "s", "m", "Mcf"])
+                    do("AddCategory", a)
+                else:
+                    do("Clear", {"x": 0})
+                battery = [("GetDefaultCategory", {"u": u}) for u in spell] + [("Scalar", {"c": NONE, "u": u, "form": "U"}) for u in spell]
+                battery += [("Obtain", {"u": u, "c": NONE}) for u in units] + [("Scalar", {"c": c, "u": NONE, "form": "C"}) for c in cats]
+                battery += [("GetValidUnits", {"c": c}) for c in cats] + [("GetBaseUnit", {"qt": q}) for q in qts]
+                for op, a in rng.sample(battery, len(battery) // 2):
+                    do(op, a)
+        finally:
+            w.close()
+    return events
+
+
 def regcheck_factors():
     from .regcheck import FACTORS
     return FACTORS
